@@ -111,6 +111,29 @@ def jobs(tier):
     for dw, al, div, kw in ((5, True, 3, {}), (6, False, 9, {"ncs": 3}), (7, True, 2, {"csr": True}),
                             (40, False, 2, {"ncs": 16}), (64, True, 5, {"csr": True, "ncs": 2}), (33, False, 255, {})):
         B(lambda dw=dw, al=al, div=div, kw=kw: L.SpiMasterInst(dw, al, divs=(div,), tag="/div%d" % div, **kw))
+    # dividers over the whole 16-bit range: a transfer of L bits takes about (L + 2) * div cycles
+    for div, cyc, ml in ((256, 6000, 4), (257, 6000, 4), (313, 8000, 3), (1000, 12000, 2), (4097, 30000, 1)):
+        B(lambda div=div, ml=ml: L.SpiMasterInst(8, div % 2 == 0, divs=(div,), max_len=ml, pstarts=(0.2, 0.5 / div),
+                                                 tag="/div%d" % div), cycles=cyc if quick else 6 * cyc)
+    B(lambda: L.SpiMasterInst(8, False, divs=(65535,), max_len=1, pstarts=(0.2,), tag="/div65535"),
+      cycles=70000 if quick else 200000, runs=1)
+    B(lambda: L.SpiMasterInst(16, True, csr=True, default_div=(125e6, 400e3), max_len=2, pstarts=(0.2,)),
+      cycles=4000 if quick else 30000)
+    # other wide counters driven to large values
+    B(lambda: L.mk_pwm(fixed=(70000, 66000)), cycles=75000 if quick else 220000, runs=1)
+    B(lambda: L.mk_pwm(csr=True, fixed=(300, 257)), cycles=3000)
+    B(lambda: L.mk_waittimer(70000), cycles=150000 if quick else 400000, runs=1)
+    B(lambda: L.mk_waittimer(1000), cycles=12000)
+    B(lambda: L.mk_watchdog(16, 300))
+    B(lambda: L.mk_watchdog(24, 70000), cycles=80000 if quick else 450000, runs=1)
+    B(lambda: L.mk_timeline([0, 300, 1000]), cycles=12000)
+    B(lambda: L.mk_timeline([70000]), cycles=150000 if quick else 300000, runs=1)
+    B(lambda: L.SpiSlaveInst(8, long_frames=True), cycles=20000 if quick else 100000)
+    B(lambda: L.I2cInst(20, 1000), cycles=60000 if quick else 300000, runs=1)
+    B(lambda: L.I2cInst(20, 66000), cycles=150000 if quick else 700000, runs=1)
+    B(lambda: L.I2cMasterInst(300), cycles=40000 if quick else 200000, runs=1)
+    if not quick:
+        B(lambda: L.I2cInst(20, 0xfffff), cycles=1100000, runs=1)
     B(lambda: L.SpiMasterInst(16, False, csr=True, default_div=(100e6, 30e6)))
     B(lambda: L.SpiMasterInst(9, True, default_div=(50e6, 12.5e6), ncs=4))
     B(lambda: L.SpiSlaveInst(5))
